@@ -444,28 +444,36 @@ def gen_block_family(rng, ntx, witness, big):
 
 
 def size_cases(rng):
-    """block size / weight boundaries (large: thorough tier only)"""
+    """block size / weight boundaries (about 1 MB to hash per transaction id: thorough tier only).
+    A block without witness data of exactly 1,000,000 bytes weighs exactly 4,000,000; the
+    weight pair keeps the stripped size below the limit and reaches 4,000,000 / 4,000,001
+    with a few witness bytes (3*stripped + full is minimal in hashing cost that way)."""
     cases = []
     cb = mk_coinbase(rng, script_len=4, nout=1)
     cb[2][0][1] = b'\x51'
-    # stripped size 1,000,000 / 1,000,001
+
+    def fill(txs, k, size):
+        """grow output 0 of txs[k] until the stripped block has exactly `size` bytes"""
+        b = finalize(rng, txs)
+        cur = len(W.ser_block(b, False))
+        txs[k][2][0][1] = b'\x6a' + b'\x00' * (size - cur - 4 - 1)      # length prefix grows from 1 to 5 bytes
+        b = finalize(rng, txs)
+        assert len(W.ser_block(b, False)) == size, len(W.ser_block(b, False))
+        return b
+
     for size in (1000000, 1000001):
         filler = [1, [[b'\x22' * 32, 0, b'', 0]], [[0, b'']], [], 0]
-        b = finalize(rng, [cb, filler])
-        cur = len(W.ser_block(b, False))
-        filler[2][0][1] = b'\x6a' + b'\x00' * (size - cur - 4 - 1)
-        b = finalize(rng, [cb, filler])
-        assert len(W.ser_block(b, False)) == size, len(W.ser_block(b, False))
-        add(cases, 1602, [3, b, 1, 1, T0], 'blk-size-%d' % size)
-    # weight 4,000,000 / 4,000,001 with a small stripped part
+        add(cases, 1602, [3, fill([cb, filler], 1, size), 1, 1, T0], 'blk-size-%d' % size)
     for weight in (4000000, 4000001):
-        wtx = [1, [[b'\x33' * 32, 0, b'', 0]], [[0, b'\x51']], [[b'\x00' * 100]], 0]
-        b = finalize(rng, [cb, wtx])
-        cur = 3 * len(W.ser_block(b, False)) + len(W.ser_block(b, True))
-        wtx[3] = [[b'\x00' * (100 + weight - cur - 4)]]         # item length prefix grows from 1 to 5 bytes
-        b = finalize(rng, [cb, wtx])
-        got = 3 * len(W.ser_block(b, False)) + len(W.ser_block(b, True))
-        assert got == weight, got
+        wtx = [1, [[b'\x33' * 32, 0, b'', 0]], [[0, b'']], [[b'\x00' * 10]], 0]
+        fill([cb, wtx], 1, 999900)
+        for _ in range(4):                                     # the item's length prefix may grow: iterate
+            b = finalize(rng, [cb, wtx])
+            got = 3 * len(W.ser_block(b, False)) + len(W.ser_block(b, True))
+            if got == weight:
+                break
+            wtx[3] = [[b'\x00' * (len(wtx[3][0][0]) + weight - got)]]
+        assert got == weight and len(W.ser_block(b, False)) == 999900, got
         add(cases, 1602, [3, b, 1, 1, T0], 'blk-weight-%d' % weight)
     return cases
 
